@@ -11,6 +11,7 @@ import (
 	"time"
 
 	"github.com/oxia-db/oxia/proto"
+	"github.com/oxia-db/oxia/server"
 	"github.com/oxia-db/oxia/server/wal"
 )
 
@@ -21,12 +22,15 @@ func defaultNetCfg(g *Rng) NetConfig {
 type w2Opts struct {
 	sessions, indexes, sequences, bigRanges, restarts, crashes bool
 	nops int
+	cfgMod func(*server.Config)
 }
 
 var c12Keys = []string{"a", "b", "c", "d", "k/1", "k/2", "k/3", "k/1/x", "k/1/y", "k/2/x", "/", "/a", "a/", "m-n", "z", "zz/top/deep/er"}
 
 // w2Workload drives a single-shard node and checks every response against the model.
 type w2Workload struct {
+	notifRetention time.Duration // 0 = nothing is ever trimmed within a run
+	seqPrefixes []string // sequence prefixes used by genSeqPut (default: seq, seq/a, q)
 	r    *Run
 	w    *World
 	c    *shardCtl
@@ -89,7 +93,11 @@ func (wl *w2Workload) genPut(g *Rng) *proto.PutRequest {
 }
 
 func (wl *w2Workload) genSeqPut(g *Rng, inReq map[string]int) *proto.PutRequest {
-	p := &proto.PutRequest{Key: []string{"seq", "seq/a", "q"}[g.Intn(3)], Value: g.Bytes(4), PartitionKey: ptr("pk")}
+	prefixes := wl.seqPrefixes
+	if len(prefixes) == 0 {
+		prefixes = []string{"seq", "seq/a", "q"}
+	}
+	p := &proto.PutRequest{Key: prefixes[g.Intn(len(prefixes))], Value: g.Bytes(4), PartitionKey: ptr("pk")}
 	nd := g.Range(1, 3)
 	if nd < inReq[p.Key] {
 		nd = inReq[p.Key]
@@ -440,7 +448,7 @@ func (wl *w2Workload) closeSession(id int64) bool {
 func (wl *w2Workload) restart() bool {
 	wl.prog = append(wl.prog, "restart")
 	wl.c.node.Stop()
-	wl.c.node = wl.w.StartNode("n1", wl.nodeDir, nil)
+	wl.c.node = wl.w.StartNode("n1", wl.nodeDir, wl.opts.cfgMod)
 	if wl.c.node.startErr != nil {
 		wl.fail("restart-error", "node failed to start: %v", wl.c.node.startErr)
 		return false
@@ -461,7 +469,7 @@ func newW2(r *Run, tag string, opts w2Opts) *w2Workload {
 	r.Knobs["wal_segment"] = wal.DefaultFactoryOptions.SegmentSize
 	wl := &w2Workload{r: r, w: w, g: g, opts: opts, closed: map[int64]bool{}}
 	wl.nodeDir = filepath.Join(w.Root, "n1")
-	node := w.StartNode("n1", wl.nodeDir, nil)
+	node := w.StartNode("n1", wl.nodeDir, opts.cfgMod)
 	wl.c = newShardCtl(w, node)
 	return wl
 }
